@@ -123,6 +123,8 @@ def run(ctx, res):
         inp = input_slice()
         H = Header(inp)
         outs = I.run(d, [inp])
+        from ..core import arithmetic
+        arithmetic(res, I, d)
         # ---- must accept
         for fs, p in wf_cases(H, name):
             for s, k, v in outs:
